@@ -95,7 +95,8 @@ Proof.
   cbn [map].
   destruct x as [ s g | l1 op r1 | b | f m0 | f | y | i | z | k e | cols rows | e | f e | | s f cst ];
     cbn [erase conj_lookup]; try reflexivity.
-  - rewrite left_field_erase. destruct (left_field l1) as [f|]; [|apply IH].
+  - rewrite left_field_erase, is_const_erase. destruct (left_field l1) as [f|]; [|reflexivity].
+    destruct (is_const r1); [|reflexivity].
     rewrite has_key_erase_m. destruct (has_key f m); [reflexivity|].
     rewrite <- IH. rewrite erase_m_app. reflexivity.
   - rewrite has_key_erase_m. destruct (has_key f m); [reflexivity|].
@@ -1052,7 +1053,8 @@ Proof.
     assert (Hsn : forall f, Forall (fun kv : str * expr => P (snd kv)) (m ++ [(f, x)])).
     { intros f. apply C03.Forall_snoc; [exact Hm | exact Hx]. }
     destruct x; try discriminate H.
-    + destruct (left_field x1) as [f|]; [|exact (IH _ _ H Hm He')].
+    + destruct (left_field x1) as [f|]; [|discriminate H].
+      destruct (is_const x2); [|discriminate H].
       destruct (has_key f m); [discriminate H|]. exact (IH _ _ H (Hsn f) He').
     + destruct (has_key f m); [discriminate H|]. exact (IH _ _ H (Hsn f) He').
     + destruct (has_key f m); [discriminate H|]. exact (IH _ _ H (Hsn f) He').
@@ -1297,4 +1299,71 @@ Proof.
       apply orb_false_iff in A2. apply orb_false_iff in B2.
       apply IH; [exact (proj2 A2) | exact (proj2 B2) | assumption].
   - apply C03.npd_pure.
+Qed.
+
+(* ------------------------------------------------------------------------------------ *)
+(* after the D18/D19 repair (conj_lookup accepts only what the first scan counts) the    *)
+(* class D18 is empty                                                                    *)
+(* ------------------------------------------------------------------------------------ *)
+Lemma conj_lookup_valid1 : forall es m m', conj_lookup es m = Some m' -> forallb conj_valid1 es = true.
+Proof.
+  induction es as [|x es IH]; intros m m' H; [reflexivity|]. cbn [conj_lookup] in H. cbn [forallb].
+  destruct x; try discriminate H; cbn [conj_valid1].
+  - destruct (left_field x1) as [f|]; [|discriminate H].
+    destruct (is_const x2); [|discriminate H].
+    destruct (has_key f m); [discriminate H|]. exact (IH _ _ H).
+  - destruct (has_key f m); [discriminate H|]. exact (IH _ _ H).
+  - destruct (has_key f m); [discriminate H|]. exact (IH _ _ H).
+Qed.
+
+Lemma d18_member_never : forall e, d18_member e = false.
+Proof.
+  intros e. destruct e as [s g| | | | | | | | | | | | |]; try reflexivity.
+  destruct s; try reflexivity. cbn [d18_member].
+  destruct (conj_lookup g []) as [m|] eqn:E; [|apply andb_false_r].
+  rewrite (conj_lookup_valid1 g [] m E). reflexivity.
+Qed.
+
+Lemma d18_here_never : forall ord neg x, d18_here ord neg x = false.
+Proof.
+  intros ord neg x. destruct x as [s l| | | | | | | | | | | | |]; try reflexivity.
+  destruct s; try reflexivity. cbn [d18_here]. cbv zeta.
+  replace (existsb d18_member (map (fun e => ok_or (matrix ord (shake_fuel e) e) e) l)) with false.
+  - apply andb_false_r.
+  - symmetry. induction (map (fun e => ok_or (matrix ord (shake_fuel e) e) e) l) as [|a l' IH]; [reflexivity|].
+    cbn [existsb]. rewrite d18_member_never. exact IH.
+Qed.
+
+Lemma exists_sub_never : forall (p : bool -> expr -> bool), (forall n x, p n x = false) ->
+  forall e n, exists_sub p n e = false.
+Proof.
+  intros p Hp. induction e as [e IH] using C01.size_ind. intros n.
+  destruct e as [ s g | l1 op r1 | b | f m0 | f | y | i | z | k e | cols rows | e | f e | | s f cst ];
+    cbn [exists_sub]; rewrite Hp; cbn [orb]; try reflexivity.
+  - induction g as [|a g IHg]; [reflexivity|]. cbn [existsb].
+    rewrite (IH a (C01.size_member s (a :: g) a (or_introl eq_refl))). cbn [orb].
+    apply IHg. intros e' He'. apply IH. cbn [expr_size fold_right] in *. lia.
+  - rewrite (IH l1), (IH r1); [reflexivity | cbn [expr_size]; lia | cbn [expr_size]; lia].
+  - destruct k; apply IH; cbn [expr_size]; lia.
+  - assert (Hc : forall row x, In row rows -> In (Some x) row -> forall n', exists_sub p n' x = false).
+    { intros row x Hr Hx n'. apply IH. apply (C01.size_cell cols rows row x Hr Hx). }
+    clear IH. induction rows as [|row rows IHr]; [reflexivity|]. cbn [existsb].
+    replace (existsb (fun c => match c with Some x => exists_sub p n x | None => false end) row) with false.
+    + cbn [orb]. apply IHr. intros row' x Hr Hx. apply (Hc row' x); [right; exact Hr | exact Hx].
+    + symmetry. assert (Hrow : forall x, In (Some x) row -> exists_sub p n x = false).
+      { intros x Hx. apply (Hc row x (or_introl eq_refl) Hx). }
+      clear -Hrow. induction row as [|c row IHc]; [reflexivity|]. cbn [existsb].
+      destruct c as [x|].
+      * rewrite (Hrow x (or_introl eq_refl)). cbn [orb]. apply IHc. intros y Hy. apply Hrow. right. exact Hy.
+      * cbn [orb]. apply IHc. intros y Hy. apply Hrow. right. exact Hy.
+  - apply IH. cbn [expr_size]. lia.
+  - apply IH. cbn [expr_size]. lia.
+Qed.
+
+Lemma known_d18_never : forall o ord sw dt, known_d18 o ord sw dt = false.
+Proof.
+  intros o ord sw dt. unfold known_d18. destruct (sw_matrix sw); [|reflexivity]. cbn [andb].
+  unfold any_tree. rewrite (exists_sub_never _ (d18_here_never ord)). cbn [orb].
+  induction (snd (pre_matrix o ord sw dt)) as [|b l IH]; [reflexivity|].
+  cbn [existsb]. rewrite (exists_sub_never _ (d18_here_never ord)). exact IH.
 Qed.
